@@ -482,6 +482,10 @@ class Gen:
                     raw += self.pick(['\\n', '\\t', "\\'", '\\\\', '\\x41', '\\q'])
             kind = 'fs' if self.chance(75) else 'fm'
             if kind == 'fm':
+                # a multi-line f-string may really span lines
+                if self.chance(50):
+                    cut = self.i(len(raw) + 1)
+                    raw = raw[:cut] + self.pick(['\n', '\n\n', 'z\n']) + raw[cut:]
                 while "'''" in raw:
                     raw = raw.replace("'''", "''")
                 while raw.endswith("'") or raw.endswith('\\'):
